@@ -19,7 +19,7 @@ type Case struct {
 
 // withArrayNulls: values in which objects with null members sit inside arrays.
 func nullyValue(t *rapid.T, depth int) *ref.V {
-	c := gen.Default
+	c := gen.WithEmptyName
 	switch gen.Uniform(t, 0, 3, "nk") {
 	case 0:
 		o := c.Object(depth).Draw(t, "no")
@@ -35,7 +35,7 @@ func nullyValue(t *rapid.T, depth int) *ref.V {
 }
 
 func draw(t *rapid.T) Case {
-	c := gen.Default
+	c := gen.WithEmptyName
 	var doc *ref.V
 	if gen.OneIn(t, 4, "anyroot") {
 		doc = c.Value(3).Draw(t, "docv")
